@@ -207,7 +207,8 @@ PLAIN_PRED_PY = {"lt": lambda a, b: a < b, "ne": lambda a, b: a != b, "even": la
 for _n, _f in PLAIN_PRED_PY.items():
     PREDS[_n] = PREDS[_n][:3] + (_f,)
 
-# if-let patterns: name -> (id, arity, pattern with $x, scrutinee template, bound variable is a reference?, python)
+# if-let patterns: name -> (id, arity, pattern with $x, scrutinee template, bound variable is a reference?, python);
+# the scrutinee is a value expression ((*p) of a Copy type), so the pattern variable is bound by value
 PARTIALS = {
     "predpos": (100, 1, "Some($x)", dl.PARTIALS["predpos"][2], False, lambda a: a - 1 if a > 0 else None),
     "half": (101, 1, "Some($x)", dl.PARTIALS["half"][2], False, lambda a: a // 2 if a % 2 == 0 else None),
